@@ -2,7 +2,7 @@
   Props/C01.lean — Every accepted operation resolves exactly once, with its own acknowledgement.
   About Model/Engine.lean: `complete_operation_as_success/failure`, the ack handlers, `reset`.
 -/
-import GV.Proofs.EngineInv
+import GV.Proofs.EngineWF
 namespace GV.Props.C01
 open GV
 
@@ -190,3 +190,30 @@ example : ((runEvents (Engine.new {}) [.user 0 (.publish { qos := 1, topic := [9
 
 end GV.Props.C01
 
+namespace GV.Props.C01
+open GV
+
+/-- **Never stranded.**  After any history, every tracked operation sits in a container from which a later event
+    resolves it: one of the three queues, the current slot, the written-but-unflushed list, or a pending-ack table.
+    (Together with `tracked_or_resolved`: an accepted operation is always either resolved or waiting somewhere.) -/
+theorem tracked_is_located (cfg : Config) (evs : List Event) (id : Nat) (o : Op)
+    (h : (runEvents (Engine.new cfg) evs).1.ops.lookup id = some o) :
+    id ∈ (runEvents (Engine.new cfg) evs).1.userQ ∨ id ∈ (runEvents (Engine.new cfg) evs).1.resubQ ∨
+    id ∈ (runEvents (Engine.new cfg) evs).1.highQ ∨ (runEvents (Engine.new cfg) evs).1.current = some id ∨
+    id ∈ (runEvents (Engine.new cfg) evs).1.pendingWC ∨ id ∈ vals (runEvents (Engine.new cfg) evs).1.pendingPub ∨
+    id ∈ vals (runEvents (Engine.new cfg) evs).1.pendingNonPub := by
+  rcases (inv_after cfg evs).2.1.loc id o h with a | a
+  · exact a
+  · cases a
+
+/-- **Acknowledgements find their own operation.**  After any history, an entry of the pending-subscribe table under a
+    packet id names a tracked SUBSCRIBE/UNSUBSCRIBE that carries exactly that id, and an entry of the pending-publish
+    table a tracked QoS 1/2 publish carrying that id — and no two operations carry the same id (Props/C06). -/
+theorem pending_entries_name_their_operation (cfg : Config) (evs : List Event) (pid id : Nat) :
+    ((runEvents (Engine.new cfg) evs).1.pendingNonPub.lookup pid = some id →
+      ∃ o, (runEvents (Engine.new cfg) evs).1.ops.lookup id = some o ∧ o.packetId = some pid ∧ isSubOrUnsub o.packet = true) ∧
+    ((runEvents (Engine.new cfg) evs).1.pendingPub.lookup pid = some id →
+      ∃ o, (runEvents (Engine.new cfg) evs).1.ops.lookup id = some o ∧ o.packetId = some pid ∧ isAckedPublish o.packet = true) :=
+  ⟨(inv_after cfg evs).2.1.tn pid id, (inv_after cfg evs).2.1.tp pid id⟩
+
+end GV.Props.C01
